@@ -324,3 +324,46 @@ package wire
 //@     invariant [no-overwrite] {C18} (wa <= old(#alloc) && Exposed(old(r.Reader.Msg), wa, wi)) ==> mem(wa, wi) == old(mem(wa, wi))
 //@     invariant [stays-exposed] {C18} (wa <= old(#alloc) && Exposed(old(r.Reader.Msg), wa, wi)) ==> Exposed(r.Reader.Msg, wa, wi)
 //@     invariant [alloc-bound] #maxalloc <= max(old(#maxalloc), max(r.Reader.MaxMessageSize, 4096))
+
+//@ func NewScanner
+//@   props C14 C04
+//@   requires tm != nil
+//@   ensures result.1 == nil ==> result.0 != nil
+//@   modifies nothing
+
+//@ func NewBinaryColumnReader
+//@   props C14 C04
+//@   requires ctx != nil && copy != nil
+//@   ensures [ctor] err == nil ==> (result.0 != nil && fresh(result.0) && result.0.reader == copy && len(result.0.scanners) == len(copy.columns) && result.0.typeMap == CtxTypeMap(ctx) && each(result.0.scanners, s, s != nil))
+//@   ensures [alloc-bound] #maxalloc <= max(old(#maxalloc), 8 * len(copy.columns))
+//@   modifies #maxalloc, #nalloc
+//@   loop 0
+//@     invariant [range] -1 <= $index && $index + 1 <= len(copy.columns) && len(scanners) == len(copy.columns)
+//@     invariant [set] forall j :: (0 <= j && j <= $index) ==> scanners[j] != nil
+//@     invariant [alloc-bound] #maxalloc <= max(old(#maxalloc), 8 * len(copy.columns))
+//@     invariant [own-array] arr(scanners) > old(#alloc)
+//@     decreases len(copy.columns) - $index
+
+//@ func (*BinaryCopyReader).Read
+//@   props C14 C13 C04
+//@   requires r != nil && r.reader != nil && ReaderOK(r.reader.Reader) && WriterReady(r.reader.writer) && ctx != nil
+//@   requires [ctor-invariant] len(r.scanners) == len(r.reader.columns) && each(r.scanners, s, s != nil)
+//@   ensures [row-arity] err == nil ==> len(result.0) == len(r.scanners)
+//@   ensures [silent] {C13 C05} OutSame()
+//@   ensures [alloc-bound] {C04} #maxalloc <= max(old(#maxalloc), max(max(r.reader.Reader.MaxMessageSize, 4096), 16 * 65535))
+//@   atreturn [count-mismatch-error] {C14} (len(r.reader.Reader.Msg) >= 0 && fields != len(r.scanners) && fields != 65535) ==> err != nil
+//@   atreturn [trailer-eof] {C14} fields == 65535 ==> err == io.EOF
+//@   callsite callback:wire.Scanner [own-scanner] {C14} $0 == r.scanners[index] && len($value) == length
+//@   modifies r.reader.Reader.Buffer.#pos, arrayof(r.reader.Reader.header), r.reader.Reader.Msg, memtail(r.reader.Reader.Msg), #maxalloc, #nalloc, #nIn, #lastIn
+//@   loop 0
+//@     invariant [ok] r.reader != nil && ReaderOK(r.reader.Reader)
+//@     invariant [range] 0 <= $index + 1 && $index + 1 <= fields && len(row) == fields && fields == len(r.scanners)
+//@     invariant [silent] OutSame()
+//@     invariant [alloc-bound] #maxalloc <= max(old(#maxalloc), max(max(r.reader.Reader.MaxMessageSize, 4096), 16 * 65535))
+//@     invariant [own-array] arr(row) > old(#alloc)
+//@     decreases fields - $index
+
+//@ func NewScanner$1
+//@   props C14 C04
+//@   requires [captured] typed != nil && typed.Codec != nil
+//@   modifies nothing
